@@ -173,6 +173,26 @@ func (e *L2Env) valView() string {
 		fmt.Fprintf(&sb, "last(%d,%d);", e.opID(op), power)
 		return false, nil
 	})
+	// the other collections, entry by entry (not through ExportGenesis)
+	np := 0
+	_ = e.K.DenomPairs.Walk(e.Ctx, nil, func(denom, base string) (bool, error) {
+		np++
+		got, err := q.BaseDenom(e.Ctx, &opchildtypes.QueryBaseDenomRequest{Denom: denom})
+		g := "ERR"
+		if err == nil {
+			g = got.BaseDenom
+		}
+		fmt.Fprintf(&sb, "pair(%s=%s/%s);", denom, base, g)
+		return false, nil
+	})
+	n1, _ := e.K.GetNextL1Sequence(e.Ctx)
+	n2, _ := e.K.GetNextL2Sequence(e.Ctx)
+	ps, _ := e.K.GetParams(e.Ctx)
+	fmt.Fprintf(&sb, "pairs=%d;n1=%d;n2=%d;params=%s;", np, n1, n2, ps.String())
+	if ok, _ := e.K.BridgeInfo.Has(e.Ctx); ok {
+		bi, _ := e.K.BridgeInfo.Get(e.Ctx)
+		fmt.Fprintf(&sb, "info=%s;", bi.String())
+	}
 	return sb.String()
 }
 
@@ -310,7 +330,7 @@ type bonded struct {
 	power int64
 }
 
-func runC16L2(seed uint64, id int, histLen, probeLen int, boundary, manyVals bool, rep *Report) (string, bool) {
+func runC16L2(seed uint64, id int, histLen, probeLen int, boundary, manyVals, bigPairs bool, rep *Report) (string, bool) {
 	sc := NewL2Scenario(seed, id, false)
 	e := sc.Env
 	c := sc.Case
@@ -335,6 +355,21 @@ func runC16L2(seed uint64, id int, histLen, probeLen int, boundary, manyVals boo
 			rep.Hist(g.Op.Kind + ":ERR")
 		}
 		return r, nil
+	}
+	var bigDenoms []string
+	if bigPairs { // more than 100 denom pairs: one-unit deposits of distinct denoms, in order
+		nd := 101 + sc.R.Intn(25)
+		for i := 0; i < nd; i++ {
+			n1, _ := e.K.GetNextL1Sequence(e.Ctx)
+			d := fmt.Sprintf("l2/%064x", 1000+i)
+			bigDenoms = append(bigDenoms, d)
+			sc.register(e.User(1).Str, e.User(4).Str)
+			g := gop{Op: L2Op{Kind: "fdep", Sender: e.User(1).Str, From: sc.L1Addrs[0], To: e.User(4).Str, Denom: d, Base: fmt.Sprintf("base%03d", i),
+				Amt: big.NewInt(1), Seq: n1, Height: 7, Hook: Hook{Kind: "none"}}}
+			do(g)
+			ops = append(ops, g)
+		}
+		rep.Hist("l2-state:big-collections-case")
 	}
 	if manyVals { // 3..5 bonded validators: the order of the initial updates matters
 		np := &L2Params{Admin: c.Params.Admin, Execs: c.Params.Execs, MaxV: 5, Hist: c.Params.Hist, MinGas: c.Params.MinGas, Whitelist: []string{}, HookGas: c.Params.HookGas}
@@ -528,11 +563,16 @@ func runC16L2(seed uint64, id int, histLen, probeLen int, boundary, manyVals boo
 	// EndBlocker), then random steps.  After every probe: result, L2Obs, EndBlocker updates,
 	// the validator queries and the exported genesis of both instances must agree.
 	if v1, v2 := e.valView(), e3.valView(); v1 != v2 {
-		viol(len(ops), "C16:l2-probe-differs", "the validator queries (Validators / Validator / by consensus key / last powers) are answered differently by the re-imported instance",
+		viol(len(ops), "C16:l2-probe-differs", "the stored collections read entry by entry (validators, key index, last powers, denom pairs, sequences, params, bridge info) of the re-imported instance differ from the original's: "+firstDiff(v1, v2),
 			map[string]string{"original": v1, "reimported": v2})
 	} else {
 		sc.register(e.Auth)
 		fixed := []gop{{End: true}}
+		for _, i := range []int{0, 99, 100, len(bigDenoms) - 1} { // follow-up withdrawals in denoms beyond the first page
+			if i >= 0 && i < len(bigDenoms) {
+				fixed = append(fixed, gop{Op: L2Op{Kind: "withdraw", Sender: e.User(4).Str, To: sc.L1Addrs[0], Denom: bigDenoms[i], Amt: big.NewInt(1)}})
+			}
+		}
 		for i := uint64(1); i <= 5; i++ {
 			fixed = append(fixed, gop{Op: L2Op{Kind: "addval", Sender: e.Auth, OpID: i, KeyID: 1 + (i+1)%5}})
 		}
@@ -602,7 +642,7 @@ func genC16L2(seed uint64, tier, outdir string) *Report {
 		if many && hl > 20 {
 			hl = 20 // keep the validators of the prefix until the export
 		}
-		text, nt := runC16L2(seed*100019+uint64(k), id, hl, probeLen, k%3 != 2, many, rep)
+		text, nt := runC16L2(seed*100019+uint64(k), id, hl, probeLen, k%3 != 2, many, false, rep)
 		rep.CountCase(text, nt)
 		if k == 0 {
 			rep.Sample(map[string]interface{}{"kind": "random L2 schedule, then export/validate/import/export + probes (case text, truncated)", "case": text[:min(len(text), 1500)]})
@@ -610,6 +650,10 @@ func genC16L2(seed uint64, tier, outdir string) *Report {
 		texts = append(texts, text)
 	}
 	writeShards(outdir, "C16L2", gen2CaseHeader, "G2.run_gen2", "G2.l2gcase", texts, 12, rep)
+	// collections larger than a default page (denom pairs): one scripted case in its own file
+	bigText, nt := runC16L2(seed*100019+900000, n+1, 10, 10, true, false, true, rep)
+	rep.CountCase(bigText, nt)
+	writeShards(outdir, "C16L2big", gen2CaseHeader, "G2.run_gen2", "G2.l2gcase", []string{bigText}, 1, rep)
 	return rep
 }
 
